@@ -105,7 +105,13 @@ func (r *Run) Pick(q, t int) int {
 }
 
 // WorkDir is the scratch directory of this property (inside /verif/.work).
-func (r *Run) WorkDir() string { return filepath.Join(Root(), ".work", r.ID) }
+func (r *Run) WorkDir() string {
+	// VERIF_SCRATCH separates concurrent runs of the same check on different trees (mutation runs)
+	if s := os.Getenv("VERIF_SCRATCH"); s != "" {
+		return filepath.Join(Root(), ".work", r.ID+"."+s)
+	}
+	return filepath.Join(Root(), ".work", r.ID)
+}
 
 // Rand returns a PRNG determined by (seed, stream).
 func (r *Run) Rand(stream string) *rand.Rand {
@@ -363,7 +369,11 @@ func (r *Run) Finish() {
 		"wall_s":      time.Since(r.start).Seconds(),
 		"violations":  len(newViol),
 	}
-	if r.Replay == "" {
+	if r.Replay == "" && os.Getenv("VERIF_SCRATCH") != "" {
+		// a scratch run (mutant) must not overwrite the evidence of the tree under /repo
+		b, _ := json.MarshalIndent(ev, "", " ")
+		os.WriteFile(filepath.Join(r.WorkDir(), "evidence.json"), b, 0o644)
+	} else if r.Replay == "" {
 		os.MkdirAll(filepath.Join(Root(), "evidence"), 0o755)
 		b, err := json.MarshalIndent(ev, "", " ")
 		if err != nil {
